@@ -107,6 +107,7 @@ def networks(draw, tier="quick"):
     arcs = [list(a) for a in draw(st.permutations(arcs))]
     return {
         "family": family, "n": n, "arcs": arcs, "s": perm[s], "t": perm[t], "scheme": draw(st.integers(0, 4)), "demand_off": draw(st.integers(-3, 2)), "supply_seed": draw(st.lists(st.integers(-3, 3), min_size=n, max_size=n)),
+        "edit": draw(st.one_of(st.none(), st.tuples(st.integers(0, n - 1), st.integers(0, n - 1), st.integers(1, 3), st.integers(0, 4)).map(list))),
         "supply_mode": "from-flow" if family == "tight" else draw(st.sampled_from(["from-flow", "from-flow", "random"])),
         "flow_seed": draw(st.lists(st.sampled_from([4, 4, 4, 0, 1, 2]) if family == "tight" else st.integers(0, 4), min_size=len(arcs), max_size=len(arcs))),
     }
@@ -244,6 +245,27 @@ def run_mcf(desc, ctx, also_ns=False):
         if status != "OPTIMAL":
             raise Violation("mcf:unexpected-status", {"status": status})
         check_flow("mcf", n, arcs, supply, res.solution, res.objective, ref[0], L)
+
+    edit = desc.get("edit")
+    if edit and not also_ns and edit[0] != edit[1] and edit[0] < n and edit[1] < n and not F.has_negative_cycle(n, arcs + [tuple(edit)]):
+        # second call on the SAME graph object after the caller added an arc (only when no negative cycle arises)
+        u, v, c, w = edit
+        graph.setdefault(L[u], []).append((L[v], c, w))
+        arcs2 = arcs + [(u, v, c, w)]
+        ref2 = F.min_cost_flow(n, arcs2, supply)
+        ctx.label("second-call-after-edit")
+        try:
+            with budget.steps(STEP_LIMIT):
+                res2 = ctx.call(flow_mod.min_cost_flow, graph, L[s], L[t], demand)
+        except budget.StepBudgetExceeded:
+            raise Violation("mcf@second-call:termination-step-budget", {"limit": STEP_LIMIT})
+        if ref2 is None:
+            if res2.status.name != "INFEASIBLE":
+                raise Violation("mcf@second-call:infeasible-not-reported", {"status": res2.status.name})
+        elif res2.status.name != "OPTIMAL":
+            raise Violation("mcf@second-call:status", {"status": res2.status.name})
+        else:
+            check_flow("mcf@second-call", n, arcs2, supply, res2.solution, res2.objective, ref2[0], L)
 
     if also_ns:
         ns_status, ns_obj = run_ns_on(n, arcs, supply, ctx, ref)
